@@ -12,7 +12,7 @@ import subprocess
 import dd
 import lib
 
-HASH_FNS = ["metro", "xxhash3", "blake3", "sha256", "sha512", "sha3-256", "sha3-512"]
+HASH_FNS = ["metro", "xxhash", "blake3", "sha256", "sha512", "sha3-256", "sha3-512"]
 KB = 1024
 # lengths straddling: empty/1, min prefix 4 KiB, max prefix 16 KiB, the 64 KiB read buffer and SSD suffix threshold, > 128 KiB
 LENGTHS = [1, 2, 100, 4095, 4096, 4097, 8191, 16383, 16384, 16385, 20000, 65535, 65536, 65537, 70000, 131072, 131073, 140001]
